@@ -1,2 +1,317 @@
+//! C01: evaluation is total. In-process monitors M1 (apply), M2 (public helpers), M3 (bounded
+//! CPU time per call); the process-level monitors (CLI, Python, sanitizers) are lanes of the
+//! orchestrator that re-use this workload.
+
+use crate::alloc;
+use crate::corpus::*;
 use crate::ctx::Ctx;
-pub fn c01(_c: &mut Ctx) {}
+use crate::observe::{self, Outcome};
+use jsonlogic_rs::js_op;
+use serde_json::{json, Value};
+
+/// CPU budget per call on a bounded document: 10 s of thread CPU time (observed worst case
+/// is tens of milliseconds, so the headroom is > 100x and load cannot turn it into a verdict).
+const CPU_BUDGET_NS: u64 = 10_000_000_000;
+
+fn total(ctx: &mut Ctx, monitor: &str, class: &str, rule: &Value, data: &Value) {
+    let (a0, _) = alloc::snapshot();
+    let t0 = observe::thread_cpu_ns();
+    let obs = ctx.observe(rule, data);
+    let dt = observe::thread_cpu_ns().saturating_sub(t0);
+    let (a1, _) = alloc::snapshot();
+    ctx.mon(monitor).observed += 1;
+    ctx.mon(monitor).judged += 1;
+    let size = (rule.to_string().len() + data.to_string().len()) as u64;
+    match &obs.out {
+        Outcome::Panic(p) => {
+            let site = p.rsplit(" @ ").next().unwrap_or("").to_string();
+            let msg: String = p.split(" @ ").next().unwrap_or("").chars().take(60).collect();
+            ctx.violation(monitor, &format!("panic:{}:{}:{}", crate::ctx::top_op(rule), msg, site), rule, data, json!("a value or an error"), obs.out.brief(), "evaluation panicked");
+            ctx.cell(&format!("{}:panic", class));
+        }
+        Outcome::Ok(_) => ctx.cell(&format!("{}:value", class)),
+        Outcome::Err(_) => ctx.cell(&format!("{}:error", class)),
+    }
+    if dt > CPU_BUDGET_NS && size <= 65536 {
+        ctx.violation("c01.cpu-bound", &format!("cpu:{}", crate::ctx::top_op(rule)), rule, data, json!({"cpu_budget_ns": CPU_BUDGET_NS}), json!({"cpu_ns": dt}), "a call on a document of at most 64 KiB exceeded its CPU-time budget");
+    }
+    ctx.mon("c01.cpu-bound").observed += 1;
+    ctx.mon("c01.cpu-bound").judged += 1;
+    let e = ctx.extra.entry("max_cpu_ns_per_call".to_string()).or_insert(json!({"max": 0}));
+    if dt > e["max"].as_u64().unwrap_or(0) {
+        *e = json!({"max": dt, "doc_bytes": size});
+    }
+    if alloc::enabled() && size > 0 {
+        let per_byte = ((a1 - a0) * 1000 / size.max(1)) as u64;
+        let e = ctx.extra.entry("max_allocations_per_1000_input_bytes".to_string()).or_insert(json!({"max": 0}));
+        if per_byte > e["max"].as_u64().unwrap_or(0) {
+            *e = json!({"max": per_byte});
+        }
+    }
+    ctx.mark_nontrivial(rule, data);
+}
+
+/// Values aimed at panics: integer extremes, huge / tiny doubles, multi-byte strings, odd shapes.
+fn extremes() -> Vec<Value> {
+    let mut v: Vec<Value> = [
+        "-9223372036854775808", "-9223372036854775807", "9223372036854775807", "9223372036854775808", "18446744073709551615",
+        "9007199254740993", "-9007199254740993", "0", "-0.0", "1", "-1", "2", "1.5", "1e308", "-1e308", "1.7976931348623157e308",
+        "5e-324", "1e-320", "1e300", "4294967296", "-4294967297", "0.1",
+    ].iter().map(|t| parse(t)).collect();
+    for s in ["", "a", "é", "日本語", "😀", "a😀b", "e\u{301}", "\u{0}", "-9223372036854775808", "9223372036854775808", "1e308", "1e309", "-1e309", "Infinity", "-Infinity", "NaN", "inf", "nan", " 1 ", "0x10", "12px", ".", "a.b", "a\\", "\\", "0", "-1", "\u{10FFFF}", "\u{FFFF}"] {
+        v.push(json!(s));
+    }
+    for t in ["null", "true", "false", "[]", "[[]]", "[1,2]", "[\"é\"]", "[-9223372036854775808]", "[1e308,1e308]", "{}", "{\"a\":1}", "{\"var\":\"a\"}", "[null]", "[[[[[[[[1]]]]]]]]"] {
+        v.push(parse(t));
+    }
+    v
+}
+
+fn deep_text(op: &str, depth: usize, bracketed: bool, leaf: &str) -> String {
+    let mut s = String::new();
+    for _ in 0..depth {
+        s.push_str(&format!("{{\"{}\":", op));
+        if bracketed {
+            s.push('[');
+        }
+    }
+    s.push_str(leaf);
+    for _ in 0..depth {
+        if bracketed {
+            s.push(']');
+        }
+        s.push('}');
+    }
+    s
+}
+
+/// Deepest chain of `op` that the text boundary (serde_json, recursion limit 128) delivers.
+fn deepest(op: &str, bracketed: bool, leaf: &str) -> Option<(Value, usize)> {
+    let mut d = if bracketed { 64 } else { 128 };
+    while d > 0 {
+        if let Ok(v) = serde_json::from_str::<Value>(&deep_text(op, d, bracketed, leaf)) {
+            return Some((v, d));
+        }
+        d -= 1;
+    }
+    None
+}
+
+pub fn c01(ctx: &mut Ctx) {
+    let ops = all_ops();
+    let ex = extremes();
+    let datas: Vec<Value> = vec![Value::Null, json!([1, 2]), json!({"a": {"b": [1, "é😀"]}, "-9223372036854775808": 1, "s": "日本語"}), json!("é😀a"), json!(i64::MIN), json!({"current": 1, "accumulator": [1]})];
+    let mut idx = 0u64;
+
+    // ---- M1(a): operator matrix ------------------------------------------------------
+    for op in ops.iter() {
+        total(ctx, "c01.apply", "matrix-0", &json!({ *op: [] }), &datas[0]);
+        for a in ex.iter() {
+            idx += 1;
+            if !ctx.mine(idx) {
+                continue;
+            }
+            for d in datas.iter().take(4) {
+                total(ctx, "c01.apply", "matrix-1", &json!({ *op: [a] }), d);
+                total(ctx, "c01.apply", "matrix-bare", &json!({ *op: a }), d);
+            }
+            for b in ex.iter() {
+                let d = &datas[((idx as usize) + b.to_string().len()) % datas.len()];
+                total(ctx, "c01.apply", "matrix-2", &json!({ *op: [a, b] }), d);
+                // index-taking positions: string first, integer extremes after it
+                if matches!(*op, "substr" | "var" | "missing_some" | "reduce" | "<" | "<=" | ">" | ">=") {
+                    for c in ex.iter().take(6) {
+                        total(ctx, "c01.apply", "matrix-3", &json!({ *op: [a, b, c] }), d);
+                    }
+                    total(ctx, "c01.apply", "matrix-3", &json!({ *op: ["日本語😀", a, b] }), d);
+                    total(ctx, "c01.apply", "matrix-3", &json!({ *op: [[1, 2, 3], a, b] }), d);
+                }
+            }
+        }
+    }
+    // numeric path segments and keys aimed at the negative-index helper
+    for k in ["-9223372036854775808", "-9223372036854775807", "9223372036854775807", "-1", "-3", "18446744073709551615"] {
+        for d in datas.iter() {
+            for p in [k.to_string(), format!("a.b.{}", k), format!("a.b.1.{}", k), format!("s.{}", k), format!("{}.{}", k, k)] {
+                total(ctx, "c01.apply", "index-path", &json!({ "var": p }), d);
+                total(ctx, "c01.apply", "index-path", &json!({"missing": [p, k]}), d);
+                total(ctx, "c01.apply", "index-path", &json!({"missing_some": [1, [p]]}), d);
+            }
+            if let Ok(n) = k.parse::<i64>() {
+                total(ctx, "c01.apply", "index-key", &json!({ "var": n }), d);
+                total(ctx, "c01.apply", "index-key", &json!({"var": [n, n]}), d);
+                total(ctx, "c01.apply", "index-key", &json!({"missing": [n]}), d);
+            }
+        }
+    }
+    // results forced out of range
+    for (rule, cls) in [
+        (json!({"+": [1e308, 1e308]}), "overflow"), (json!({"*": [1e200, 1e200]}), "overflow"), (json!({"-": [-1e308, 1e308]}), "overflow"),
+        (json!({"/": [1, 0]}), "div0"), (json!({"/": [0, 0]}), "nan"), (json!({"%": [1, 0]}), "nan"), (json!({"*": [9223372036854775807i64, 2]}), "2^64"),
+        (json!({"+": [9223372036854775807i64, 1]}), "2^63"), (json!({"-": [i64::MIN, 1]}), "-2^63-1"), (json!({"-": [i64::MIN]}), "neg-min"),
+        (json!({"*": [5e-324, 0.5]}), "underflow"), (json!({"max": [u64::MAX, 1e308]}), "max"), (json!({"min": ["-Infinity", 1]}), "min-inf"),
+        (json!({"+": ["1e309"]}), "parse-inf"), (json!({"*": ["-1e309", 0]}), "parse-inf-nan"), (json!({"%": [i64::MIN, -1]}), "min-mod-neg1"),
+        (json!({"/": [i64::MIN, -1]}), "min-div-neg1"),
+    ] {
+        total(ctx, "c01.apply", &format!("range:{}", cls), &rule, &Value::Null);
+    }
+    ctx.exhaustive_parts.push(format!("35 operators x all ordered pairs of {} extreme values (bracketed, bare and with index-taking third operands)", ex.len()));
+
+    // ---- M1(c): deep and wide documents built from text ---------------------------------
+    for op in ops.iter() {
+        idx += 1;
+        if !ctx.mine(idx) {
+            continue;
+        }
+        for leaf in ["1", "\"é\"", "[1,2]", "{\"var\":\"a\"}", "[]"] {
+            for bracketed in [true, false] {
+                if let Some((rule, d)) = deepest(op, bracketed, leaf) {
+                    total(ctx, "c01.apply", &format!("deep-{}:{}", if bracketed { "bracketed" } else { "bare" }, d), &rule, &datas[2]);
+                    ctx.extra.insert(format!("max_depth_{}", if bracketed { "bracketed" } else { "bare" }), json!(d));
+                }
+            }
+        }
+        // deep chain in every operand position of a multi-operand operator
+        if let Some((deep, _)) = deepest("!", false, "1") {
+            for pos in 0..3 {
+                let mut args = vec![json!([1, 2]), json!({"var": ""}), json!(0)];
+                args[pos] = deep.clone();
+                // one level of array + object is spent here: shave two levels off
+                if let Ok(v) = serde_json::from_str::<Value>(&json!({ *op: args }).to_string()) {
+                    total(ctx, "c01.apply", "deep-in-operand", &v, &datas[1]);
+                }
+            }
+        }
+    }
+    // deep *data* reached by var / cat / == / merge / in / map (recursive string form, clone, drop)
+    let deep_data_txt = format!("{}1{}", "[".repeat(127), "]".repeat(127));
+    if let Ok(dd) = serde_json::from_str::<Value>(&deep_data_txt) {
+        for rule in [json!({"var": ""}), json!({"cat": [{"var": ""}]}), json!({"==": [{"var": ""}, "1"]}), json!({"merge": [{"var": ""}, {"var": ""}]}), json!({"in": [{"var": ""}, [{"var": ""}]]}), json!({"<=": [{"var": ""}, {"var": ""}]}), json!({"+": [{"var": ""}]}), json!({"map": [{"var": ""}, {"var": ""}]}), json!({"var": "0.0.0.0.0.0.0.0.0.0.0.0.0.0.0.0.0.0.0.0"}), json!({"!!": [{"var": ""}]}), json!({"log": {"var": "0.0.0.0"}}), json!({"reduce": [{"var": ""}, {"var": "current"}, 0]}), json!({"all": [{"var": ""}, {"var": ""}]}), json!({"missing": [{"var": "0"}]})] {
+            total(ctx, "c01.apply", "deep-data", &rule, &dd);
+        }
+    }
+    let deep_obj_txt = format!("{}1{}", "{\"a\":".repeat(127), "}".repeat(127));
+    if let Ok(dd) = serde_json::from_str::<Value>(&deep_obj_txt) {
+        let path = vec!["a"; 126].join(".");
+        for rule in [json!({ "var": path }), json!({"missing": [path, "a.a.b"]}), json!({"cat": [{"var": ""}, {"var": "a"}]}), json!({"===": [{"var": ""}, {"var": ""}]}), json!({"in": [{"var": "a"}, [{"var": "a"}]]})] {
+            total(ctx, "c01.apply", "deep-data", &rule, &dd);
+        }
+    }
+    // wide documents
+    idx += 1;
+    if ctx.mine(idx) {
+        let wide: Vec<Value> = (0..20_000).map(|i| json!(i)).collect();
+        let wide_s: String = "é😀a".repeat(20_000);
+        for rule in [json!({"+": wide}), json!({"*": wide}), json!({"cat": wide}), json!({"merge": [wide, wide]}), json!({"max": wide}), json!({"and": wide}), json!({"or": wide}), json!({"if": wide}), json!({"missing": wide}),
+                     json!({"map": [wide, {"var": ""}]}), json!({"reduce": [wide, {"+": [{"var": "current"}, {"var": "accumulator"}]}, 0]}), json!({"all": [wide_s, true]}), json!({"substr": [wide_s, -59_999, -1]}), json!({"in": ["a😀", wide_s]}), json!({"var": [wide_s]}), json!({"none": [wide, {"<": [{"var": ""}, 0]}]}), json!({"filter": [wide, {"%": [{"var": ""}, 2]}]})] {
+            total(ctx, "c01.apply", "wide", &rule, &json!({"a": 1}));
+        }
+    }
+
+    // ---- M1(b): random trees -------------------------------------------------------------
+    let n = ctx.budget(20_000, 3_000_000);
+    let mut g = RuleGen::new();
+    g.probes = 1;
+    g.poison = 5;
+    for i in 0..n {
+        let d = rand_data(&mut ctx.rng, 4, 10, &mut 0);
+        let mut rule = g.rule(&mut ctx.rng, &d, 5, 4);
+        // splice extreme values into the rule
+        if ctx.rng.chance(1, 2) {
+            splice(&mut rule, &ex, &mut ctx.rng);
+        }
+        total(ctx, "c01.apply", "random-tree", &rule, &d);
+        if i % 2000 == 0 {
+            ctx.sample(json!({"rule": rule, "data": d}));
+        }
+    }
+
+    // ---- M2: public helpers ---------------------------------------------------------------
+    let mut hv = ex.clone();
+    hv.extend(v_all());
+    let mut hi = 0u64;
+    for a in hv.iter() {
+        hi += 1;
+        if !ctx.mine(hi) {
+            continue;
+        }
+        helper1(ctx, a);
+        for b in hv.iter() {
+            helper2(ctx, a, b);
+        }
+    }
+    ctx.exhaustive_parts.push(format!("every public js_op helper on all ordered pairs of {} values", hv.len()));
+    ctx.sample(json!({"substr": ["abc", i64::MIN]}));
+    ctx.sample(json!({"var": i64::MIN}));
+}
+
+fn splice(rule: &mut Value, ex: &[Value], r: &mut crate::rng::Rng) {
+    match rule {
+        Value::Object(m) => {
+            for (_, v) in m.iter_mut() {
+                splice(v, ex, r);
+            }
+        }
+        Value::Array(a) => {
+            for v in a.iter_mut() {
+                if r.chance(1, 3) && !v.is_object() {
+                    *v = r.pick(ex).clone();
+                } else {
+                    splice(v, ex, r);
+                }
+            }
+        }
+        _ => {}
+    }
+}
+
+fn helper_report(ctx: &mut Ctx, name: &str, res: Result<(), String>, a: &Value, b: &Value) {
+    ctx.mon("c01.helpers").observed += 1;
+    ctx.mon("c01.helpers").judged += 1;
+    ctx.evaluations += 1;
+    ctx.cell(&format!("helper:{}", name));
+    if let Err(p) = res {
+        let site = p.rsplit(" @ ").next().unwrap_or("").to_string();
+        ctx.violation_x("c01.helpers", &format!("helper-panic:{}:{}", name, site), &json!({"helper": name}), &json!([a, b]), json!("a result or an error value"), json!({ "panic": p }), "a public coercion helper panicked", json!({"helper": name, "args": [a, b]}));
+    }
+}
+
+fn helper1(ctx: &mut Ctx, a: &Value) {
+    let x = a.clone();
+    helper_report(ctx, "to_string", observe::catch(move || { let _ = js_op::to_string(&x); }), a, &Value::Null);
+    let x = a.clone();
+    helper_report(ctx, "to_number", observe::catch(move || { let _ = js_op::to_number(&x); }), a, &Value::Null);
+    let x = a.clone();
+    helper_report(ctx, "to_negative", observe::catch(move || { let _ = js_op::to_negative(&x); }), a, &Value::Null);
+    let x = a.clone();
+    helper_report(ctx, "parse_float", observe::catch(move || { let _ = js_op::parse_float(&x); }), a, &Value::Null);
+    if let Value::String(s) = a {
+        let s2 = s.clone();
+        helper_report(ctx, "str_to_number", observe::catch(move || { let _ = js_op::str_to_number(&s2); }), a, &Value::Null);
+    }
+}
+
+fn helper2(ctx: &mut Ctx, a: &Value, b: &Value) {
+    type F2 = fn(&Value, &Value) -> bool;
+    let bools: [(&str, F2); 8] = [("abstract_eq", js_op::abstract_eq), ("abstract_ne", js_op::abstract_ne), ("abstract_lt", js_op::abstract_lt), ("abstract_lte", js_op::abstract_lte), ("abstract_gt", js_op::abstract_gt), ("abstract_gte", js_op::abstract_gte), ("strict_eq", js_op::strict_eq), ("strict_ne", js_op::strict_ne)];
+    for (name, f) in bools.iter() {
+        let (x, y, f) = (a.clone(), b.clone(), *f);
+        helper_report(ctx, name, observe::catch(move || { let _ = f(&x, &y); }), a, b);
+    }
+    let (x, y) = (a.clone(), b.clone());
+    helper_report(ctx, "abstract_plus", observe::catch(move || { let _ = js_op::abstract_plus(&x, &y); }), a, b);
+    let (x, y) = (a.clone(), b.clone());
+    helper_report(ctx, "abstract_minus", observe::catch(move || { let _ = js_op::abstract_minus(&x, &y); }), a, b);
+    let (x, y) = (a.clone(), b.clone());
+    helper_report(ctx, "abstract_div", observe::catch(move || { let _ = js_op::abstract_div(&x, &y); }), a, b);
+    let (x, y) = (a.clone(), b.clone());
+    helper_report(ctx, "abstract_mod", observe::catch(move || { let _ = js_op::abstract_mod(&x, &y); }), a, b);
+    let (x, y) = (a.clone(), b.clone());
+    helper_report(ctx, "abstract_max", observe::catch(move || { let _ = js_op::abstract_max(&vec![&x, &y]); }), a, b);
+    let (x, y) = (a.clone(), b.clone());
+    helper_report(ctx, "abstract_min", observe::catch(move || { let _ = js_op::abstract_min(&vec![&x, &y]); }), a, b);
+    let (x, y) = (a.clone(), b.clone());
+    helper_report(ctx, "parse_float_add", observe::catch(move || { let _ = js_op::parse_float_add(&vec![&x, &y]); }), a, b);
+    let (x, y) = (a.clone(), b.clone());
+    helper_report(ctx, "parse_float_mul", observe::catch(move || { let _ = js_op::parse_float_mul(&vec![&x, &y]); }), a, b);
+}
